@@ -110,3 +110,12 @@ Proof.
   - rewrite Er. reflexivity.
 Qed.
 Print Assumptions C04_no_data_after_tamper.
+
+(* Freezing the digests early (FinalizeDigests, the plaintext-session path) and installing a key
+   afterwards binds exactly the same digests as installing the key directly; and the cleartext
+   operations of C04_binding include SetConnection at any point (CSetConn): the transcript
+   digests run on across a change of connection. *)
+Theorem C04_finalize_before_key_is_neutral :
+  forall (s : stream) (k iv : bytes), set_key (finalize_digests s) k iv = set_key s k iv.
+Proof. exact set_key_after_finalize. Qed.
+Print Assumptions C04_finalize_before_key_is_neutral.
